@@ -273,6 +273,7 @@ int ABT_cond_timedwait(ABT_cond cond, ABT_mutex mutex,
 
     if (p_cond->p_waiter_mutex == NULL) {
         p_cond->p_waiter_mutex = p_mutex;
+        ABTI_VERIF_EV(ABTI_VEV_DATA, p_cond, 1, p_mutex);
     } else {
         if (p_cond->p_waiter_mutex != p_mutex) {
             ABTD_spinlock_release(&p_cond->lock);
